@@ -317,6 +317,8 @@ def check(run, ctx):
     for rec in shared.collector_walkers(ctx, prefixes=("src.linters.unwrap_abuse", "src.linters.clone_abuse", "src.linters.blocking_async", "src.analyzers.rust_base")):
         (run.ok(R7, rec["func"], rec["detail"]) if rec["ok"] else run.finding(R7, rec["func"], "pruned-walk", f"{rec['func']}: {rec['detail']}: calls below such a node are never reported", rec["loc"]))
 
+    for rec in shared.worklist_walkers(ctx, prefixes=("src.linters.unwrap_abuse", "src.linters.clone_abuse", "src.linters.blocking_async", "src.analyzers")):
+        (run.ok(R7, rec["func"], f"work list starts at {rec['init']}") if rec["ok"] else run.finding(R7, rec["func"], f"worklist-skips-root:{rec['init']}", f"{rec['func']}: the iterative walk starts with `{rec['init']}`: the node the function is asked about is never tested itself, only its descendants - a bare identifier (the tail expression of a block) is not seen as a use", rec["loc"]))
     # ... and exactly once: a recursive collector is started from the tree root, not once per item of an all-descendants listing
     walkers = {rec["fq"] for rec in shared.collector_walkers(ctx, prefixes=("src.linters.unwrap_abuse", "src.linters.clone_abuse", "src.linters.blocking_async"))}
     n_start = 0
